@@ -134,6 +134,11 @@ def _gate2(name, pycls, fn, tags=('c08', 'gate')):
 
     def plan(self, rng, pool):
         a, w = pool.any()
+        if name in ('And2', 'Or2') and rng.random() < 0.2:
+            # the two primitive gates accept operands and a result of different widths (helper functions connect
+            # whatever they are given): the result is the operation on the values, reduced to the result width
+            b, wb = pool.any()
+            return {}, [a, b], [rng.choice([w, wb, min(w, wb), max(w, wb), rand_width(rng)])]
         b, _ = pool.pick(w)
         return {}, [a, b], [w]
 
@@ -663,7 +668,7 @@ def _eqconst(name, pycls, neg):
     def plan(self, rng, pool):
         a, w = pool.any(1, 40)
         v = rng.choice([0, (1 << w) - 1, rng.getrandbits(w)])
-        return {'v': v}, [a], [1]
+        return {'v': v}, [a], [1 if rng.random() < 0.85 else rng.choice([2, 8])]      # the flag on a wider wire: 0 / 1
 
     def build(self, parent, nm, ins, outs, p):
         return pycls(parent, nm, ins[0], p['v'], outs[0])
@@ -1985,6 +1990,49 @@ class IfaceInc(Kind):
 
     def outs(self, p, st, iv, iw, ow):
         return [M(iv[0] + 1, ow[0])]
+
+
+class _FlexParity(py4hw.Logic):
+    """r = parity of a.  One class, two flavours per instance: built from library gates, or a behavioural propagate()
+    bound to the instance before the ports are declared.  (Binding it after the ports - the idiom of
+    py4hw.emulation.verilatorwrapping.create_wrapper for clock() - is not used: ports declared while the object is not
+    yet a primitive are not registered on their wires, so the sorter cannot see them; a limitation, not a C04 claim.)"""
+
+    def __init__(self, parent, name, a, r, flavour):
+        super().__init__(parent, name)
+        if flavour == 'early':
+            self.propagate = self.behavioural
+        self.a = self.addIn('a', a)
+        self.r = self.addOut('r', r)
+        if flavour == 'gates':
+            if a.getWidth() == 1:
+                py4hw.Buf(self, 'buf', a, r)
+            else:
+                bits = self.wires('b', a.getWidth(), 1)
+                py4hw.BitsLSBF(self, 'bits', a, bits)
+                py4hw.Xor(self, 'xor', bits, r)
+        elif flavour == 'late':
+            self.propagate = self.behavioural
+
+    def behavioural(self):
+        self.r.put(bin(self.a.get()).count('1') & 1)
+
+
+@register
+class FlexParity(Kind):
+    name = 'FlexParity'
+    tags = ('extra', 'simonly', 'userblock', 'perinst')
+    weight = 1.2
+
+    def plan(self, rng, pool):
+        a, w = pool.any(1, 24)
+        return {'flavour': rng.choice(['gates', 'early'])}, [a], [1]
+
+    def build(self, parent, nm, ins, outs, p):
+        return _FlexParity(parent, nm, ins[0], outs[0], p['flavour'])
+
+    def outs(self, p, st, iv, iw, ow):
+        return [bin(iv[0]).count('1') & 1]
 
 
 @register
